@@ -21,7 +21,7 @@ def world(rng, v='1.1', two_versions=True, relrich=True):
     e1 = g.lexicon('e', '1', v, n_syn=rng.randint(3, 6), n_ent=rng.randint(1, 3), lang='en', ili_pool=pool, forms_pool=forms)
     b1 = g.lexicon('b', '1', v, n_syn=rng.randint(2, 5), n_ent=rng.randint(1, 3), lang='de', ili_pool=pool, forms_pool=forms,
                    requires=[{'id': 'e', 'version': '1'}, {'id': 'zz', 'version': '0'}])
-    u1 = g.lexicon('u', '1', v, n_syn=2, n_ent=2, lang='ja', ili_pool=pool, forms_pool=forms)
+    u1 = g.lexicon('u', '1', v, n_syn=rng.randint(2, 5), n_ent=2, lang='ja', ili_pool=pool, forms_pool=forms)
     W = {'a:1': a1, 'ax:1': ax, 'e:1': e1, 'b:1': b1, 'u:1': u1}
     if two_versions:
         W['a:2'] = g.lexicon('a', '2', v, n_syn=rng.randint(2, 4), n_ent=rng.randint(2, 3), lang='en', ili_pool=pool, forms_pool=forms)
@@ -30,6 +30,11 @@ def world(rng, v='1.1', two_versions=True, relrich=True):
         ys = e1['synsets']
         for i, y in enumerate(ys[:-1]):
             y.setdefault('relations', []).append({'target': ys[i + 1]['id'], 'relType': 'hypernym', 'meta': None})
+        # the unrelated lexicon has a hypernym backbone of its own over the same ILIs: if navigation ever leaves the
+        # selection and its expand set (e.g. from a placeholder synset), its relations show up
+        us = u1['synsets']
+        for i, y in enumerate(us[:-1]):
+            y.setdefault('relations', []).append({'target': us[i + 1]['id'], 'relType': 'hypernym', 'meta': None})
     return W
 
 
